@@ -6,10 +6,10 @@ W=$1; F=$2; P=${3:-4}
 cd /verif
 new=""
 for d in $W/C*/_seed/*; do
-  [ -f $d/patch.diff ] || continue
+  [ -f $d/patch.diff ] && [ -f $d/demo_test.py ] && [ -f $d/meta.agent.json ] || continue
   wt=$(dirname $(dirname $d)); c=$(basename $wt); k=$(basename $d)
   id=$c-$((F + k - 1))
-  [ -d seeded/$id ] && { new="$new $id"; continue; }
+  [ -f seeded/$id/intake.txt ] && continue
   mkdir -p seeded/$id
   cp $d/patch.diff seeded/$id/; cp $d/meta.agent.json seeded/$id/ 2>/dev/null
   sed "s#$wt#/repo#g" $d/demo_test.py > seeded/$id/demo_test.py
